@@ -9,150 +9,6 @@ indexes of `setDestinationRules`, with `mergeDestinationRule` consolidation).
 -/
 namespace IstioModel.C07
 
-/-! ### VirtualServices -/
-
-/-- declared exportTo of a VirtualService, or the mesh default when unset -/
-def declaredVSExport (m : Mesh) (v : VS) : List String :=
-  if v.exportTo = [] then (match m.defVS with | none => ["*"] | some l => l) else v.exportTo
-
-/-- **spec**: the VirtualService is exported to namespace `ns` -/
-def VSVisible (m : Mesh) (v : VS) (ns : String) : Prop := ExportsTo (declaredVSExport m v) v.ns ns
-
-theorem mem_vsExport {m : Mesh} {v : VS} {x : String} (h : x ∈ vsExport m v) :
-    ∃ y ∈ declaredVSExport m v, (if y = "." then v.ns else y) = x := by
-  simp only [vsExport, declaredVSExport] at *
-  cases hE : v.exportTo with
-  | nil =>
-    simp only [hE, List.isEmpty_nil, if_true] at h ⊢
-    cases hd : m.defVS with
-    | none =>
-      simp only [hd, defaultExport] at h ⊢
-      simp at h; subst h; exact ⟨"*", by simp, by simp⟩
-    | some l =>
-      simp only [hd, defaultExport] at h ⊢
-      split at h
-      · rename_i hemp
-        -- converted default is empty, so the default is empty
-        simp at hemp; subst hemp; simp at h
-      · simp only [List.mem_map, beq_iff_eq] at h
-        obtain ⟨y, hy, hxy⟩ := h; exact ⟨y, hy, hxy⟩
-  | cons a t =>
-    simp only [hE] at h ⊢
-    simp only [List.isEmpty_cons, Bool.false_eq_true, if_false, List.map_cons, List.isEmpty_cons] at h
-    simp only [reduceCtorEq, if_false]
-    simp only [List.mem_cons, List.mem_map, beq_iff_eq] at h ⊢
-    rcases h with h | ⟨y, hy, hxy⟩
-    · exact ⟨a, Or.inl rfl, h.symm⟩
-    · exact ⟨y, Or.inr hy, hxy⟩
-
-theorem vsVisible_of_index {m : Mesh} {v : VS} {ns : String} (hvn : v.ns ≠ "*")
-    (h : "*" ∈ vsExport m v ∨ ns ∈ vsExport m v) : VSVisible m v ns := by
-  unfold VSVisible ExportsTo
-  rcases h with h | h
-  · obtain ⟨y, hy, hc⟩ := mem_vsExport h
-    by_cases hd : y = "."
-    · simp [hd] at hc; exact absurd hc hvn
-    · simp [hd] at hc; subst hc; exact Or.inl hy
-  · obtain ⟨y, hy, hc⟩ := mem_vsExport h
-    by_cases hd : y = "."
-    · simp [hd] at hc; subst hd; exact Or.inr (Or.inl ⟨hy, hc⟩)
-    · simp [hd] at hc; subst hc; exact Or.inr (Or.inr hy)
-
-theorem mem_addVS {ps : List PHost} {acc : List VS} {c x : VS} {hc : HostClass} (h : x ∈ addVS ps acc c hc) :
-    x ∈ acc ∨ x = c := by
-  simp only [addVS] at h
-  split at h
-  · exact Or.inl h
-  · split at h
-    · rcases List.mem_append.mp h with h | h
-      · exact Or.inl h
-      · simp at h; exact Or.inr h
-    · exact Or.inl h
-
-theorem mem_visitVS {ps : List PHost} {acc : List VS} {c x : VS} (h : x ∈ visitVS ps acc c) : x ∈ acc ∨ x = c := by
-  simp only [visitVS] at h
-  have step1 : ∀ y, y ∈ (match hcFor ps c.ns with | some hc => addVS ps acc c hc | none => acc) → y ∈ acc ∨ y = c := by
-    intro y hy
-    cases hh : hcFor ps c.ns with
-    | none => simp only [hh] at hy; exact Or.inl hy
-    | some hc => simp only [hh] at hy; exact mem_addVS hy
-  cases hw : hcFor ps "*" with
-  | none => simp only [hw] at h; exact step1 x h
-  | some hc =>
-    simp only [hw] at h
-    rcases mem_addVS h with h | h
-    · exact step1 x h
-    · exact Or.inr h
-
-theorem mem_foldl_visitVS {ps : List PHost} {l acc : List VS} {x : VS} (h : x ∈ l.foldl (visitVS ps) acc) :
-    x ∈ acc ∨ x ∈ l := by
-  induction l generalizing acc with
-  | nil => exact Or.inl h
-  | cons a t ih =>
-    rw [List.foldl_cons] at h
-    rcases ih h with h | h
-    · rcases mem_visitVS h with h | h
-      · exact Or.inl h
-      · exact Or.inr (h ▸ List.mem_cons_self)
-    · exact Or.inr (List.mem_cons_of_mem _ h)
-
-theorem mem_loopAndAdd {unified : Bool} {cfgNs : String} {ps : List PHost} {acc vses : List VS} {x : VS}
-    (h : x ∈ loopAndAdd unified cfgNs ps acc vses) : x ∈ acc ∨ x ∈ vses := by
-  simp only [loopAndAdd] at h
-  split at h
-  · rcases mem_foldl_visitVS h with h | h
-    · exact Or.inl h
-    · rcases List.mem_append.mp h with h | h <;> exact Or.inr (List.mem_filter.mp h).1
-  · exact mem_foldl_visitVS h
-
-/-- **vs_export_sound**: every VirtualService an egress listener selects is a mesh-gateway
-    VirtualService of the store that is exported to the proxy's namespace. -/
-theorem vs_export_sound (unified : Bool) (m : Mesh) (vss : List VS) (cfgNs : String) (ps : List PHost)
-    (hvn : ∀ v ∈ vss, v.ns ≠ "*") :
-    ∀ v ∈ selectVirtualServices unified m vss cfgNs ps, v ∈ vss ∧ vsOnMesh v = true ∧ VSVisible m v cfgNs := by
-  intro v hv
-  simp only [selectVirtualServices] at hv
-  have fromIndex : v ∈ vsPrivate m vss cfgNs ∨ v ∈ vsExported m vss cfgNs ∨ v ∈ vsPublic m vss := by
-    rcases mem_loopAndAdd hv with h | h
-    · rcases mem_loopAndAdd h with h | h
-      · rcases mem_loopAndAdd h with h | h
-        · simp at h
-        · exact Or.inl h
-      · exact Or.inr (Or.inl h)
-    · exact Or.inr (Or.inr h)
-  rcases fromIndex with h | h | h
-  · simp only [vsPrivate, List.mem_filter, Bool.and_eq_true, List.contains_iff_mem] at h
-    exact ⟨h.1, h.2.1.1.1.1, vsVisible_of_index (hvn v h.1) (Or.inr h.2.2)⟩
-  · simp only [vsExported, List.mem_filter, Bool.and_eq_true, List.contains_iff_mem] at h
-    exact ⟨h.1, h.2.1.1.1.1, vsVisible_of_index (hvn v h.1) (Or.inr h.2.2)⟩
-  · simp only [vsPublic, List.mem_filter, Bool.and_eq_true, List.contains_iff_mem] at h
-    exact ⟨h.1, h.2.1, vsVisible_of_index (hvn v h.1) (Or.inl h.2.2)⟩
-
-/-- the same for the gateway default scope (`VirtualServicesForGateway(ns, mesh)`). -/
-theorem gateway_vs_export_sound (m : Mesh) (vss : List VS) (cfgNs : String) (hvn : ∀ v ∈ vss, v.ns ≠ "*") :
-    ∀ v ∈ gatewayVirtualServices m vss cfgNs, v ∈ vss ∧ VSVisible m v cfgNs := by
-  intro v hv
-  simp only [gatewayVirtualServices, List.mem_append, List.mem_filter] at hv
-  have pub : v ∈ vsPublic m vss → v ∈ vss ∧ VSVisible m v cfgNs := by
-    intro h
-    simp only [vsPublic, List.mem_filter, Bool.and_eq_true, List.contains_iff_mem] at h
-    exact ⟨h.1, vsVisible_of_index (hvn v h.1) (Or.inl h.2.2)⟩
-  rcases hv with ((h | h) | h) | h
-  · simp only [vsPrivate, List.mem_filter, Bool.and_eq_true, List.contains_iff_mem] at h
-    exact ⟨h.1, vsVisible_of_index (hvn v h.1) (Or.inr h.2.2)⟩
-  · simp only [vsExported, List.mem_filter, Bool.and_eq_true, List.contains_iff_mem] at h
-    exact ⟨h.1, vsVisible_of_index (hvn v h.1) (Or.inr h.2.2)⟩
-  · exact pub h.1
-  · exact pub h.1
-
-/-- a VirtualService exported to another namespace only is never selected (non-vacuity of the
-    filter: the same VirtualService is selected by a proxy of the namespace it is exported to). -/
-example :
-    let v : VS := { (mkVS "v" "ns1" ["a.com"] ["b.com"]) with exportTo := ["ns2"] }
-    let ps := parseHosts "x" ["*/*"]
-    (selectVirtualServices true {} [v] "ns3" ps).length = 0 ∧ (selectVirtualServices true {} [v] "ns2" ps).length = 1 := by
-  decide +kernel
-
 /-! ### DestinationRules -/
 
 /-- **spec**: the DestinationRule is exported to namespace `ns`: a rule with a workloadSelector is
